@@ -37,7 +37,8 @@ INLINE = [
     f"{OM}:CenterOfMassOriginModel.shifted_tensor",
     f"{DS}:Dataset.shape", f"{DS}:Dataset.array", f"{DS}:Dataset.ndim",
     f"{PU}:SimpleBatcher.rng", f"{UT}:tqdmnd",
-    f"{AF}:sum", f"{AF}:match_device", f"{AF}:validate_arraylike",
+    f"{AF}:sum", f"{AF}:match_device", f"{AF}:validate_arraylike", f"{AF}:as_type",
+    f"{VAL}:validate_array_or_tensor", f"{VAL}:validate_arraylike", f"{VAL}:canonical_dtype_str",
     f"{DM}:PtychographyDatasetRaster.com_measured", f"{DM}:PtychographyDatasetRaster.com_fit", f"{DM}:PtychographyDatasetRaster.gpts",
     f"{DM}:PtychographyDatasetBase.roi_shape", f"{DM}:PtychographyDatasetBase.dset",
 ]
@@ -53,6 +54,7 @@ def make_registry():
         if isinstance(c, SetterContract):
             reg.contracts[c.prop_qn] = c  # getter and setter share one __qualname__; the wrapper dispatches on arity
     reg.inline.update(INLINE)
+    reg.closure_models = {"*": m_plane_fit_helper}  # the nested PCA plane fit (recognised by torch.linalg.eigh) is used through its stated contract
     return reg
 
 
@@ -276,7 +278,120 @@ C_VALIDATE_ARRAY = Contract(f"{VAL}:validate_array", result=lambda ctx, s: _va_v
                             requires=lambda s: [("array-or-sequence-of-arrays", isinstance(s.value, SymArr) or all(isinstance(x, SymArr) for x in s.value))],
                             raises={ValueError: _va_shape_mismatch})
 
-ASSUMED_CONTRACTS = [C_VALIDATE_TENSOR, C_VALIDATE_ARRAY]
+ASSUMED_CONTRACTS = []  # both validators are verified from source below (same Contract objects: call-site view + verified view)
+
+
+# ---- the validators verified FROM SOURCE (validate_tensor / validate_array -> validate_array_or_tensor -> validate_arraylike,
+#      canonical_dtype_str, array_funcs.as_type interpreted in place).  Exported for other property modules:
+#      VALIDATE_TENSOR_CONTRACT / VALIDATE_ARRAY_CONTRACT (add them to CONTRACTS-for-call-sites via reg.add_contract).
+
+
+def _val_setup(want_tensor):
+    def setup(ctx):
+        br = lambda n: ctx.branch(ctx.fresh(n, "bool").t)
+        pair = (not want_tensor) and br("value_is_a_pair_of_arrays")
+        rank = 1 if br("value_is_1d") else 2 if br("value_is_2d") else 4
+        dims = tuple(ctx.fresh(f"d{i}", "int") for i in range(rank))
+        for d in dims:
+            ctx.assume(d.t >= 0)
+        kind = "int" if br("value_holds_integers") else "real"
+        lib = torch.Tensor if (not pair and br("value_is_torch")) else np.ndarray
+
+        def mk(nm):
+            a = ctx.fresh_arr(nm, dims, kind)
+            a.as_type = lib
+            return a
+
+        value = (mk("value0"), mk("value1")) if pair else mk("value")
+        out_rank = rank + (1 if pair else 0)
+        nd = None
+        if not br("ndim_is_none"):
+            nd = out_rank if br("ndim_request_matches") else out_rank + 1
+        shp = None
+        if not br("shape_is_none"):
+            r2 = out_rank if br("shape_request_has_the_same_rank") else out_rank + 1
+            shp = tuple(ctx.fresh(f"want{i}", "int") for i in range(r2))
+        dt = torch.float if want_tensor else np.float32
+        return NS(value=value, name="value", dtype=dt, ndim=nd, shape=shp, expand_dims=False,
+                  g=NS(arrs=(value if pair else (value,)), fns=[a.fn for a in (value if pair else (value,))], pair=pair, dims=dims, out_rank=out_rank),
+                  case=f"{'pair' if pair else lib.__name__},{kind},rank{rank},ndim:{nd},shape:{None if shp is None else len(shp)}")
+    return setup
+
+
+def _val_out_shape(s):
+    v = s.value
+    if isinstance(v, (tuple, list)):
+        return (len(v),) + tuple(v[0].shape)
+    return tuple(v.shape)
+
+
+def _val_raises(s):
+    have = _val_out_shape(s)
+    bad = []
+    if s.ndim is not None and not s.get("expand_dims", False):
+        bad.append(z3.BoolVal(len(have) != int(s.ndim)))
+    if s.ndim is not None and s.get("expand_dims", False):
+        raise V.OutOfSubset("validators with expand_dims=True are not specified")
+    if s.shape is not None:
+        want = tuple(s.shape)
+        bad.append(z3.BoolVal(True) if len(want) != len(have) else z3.Not(z3.And(*[lift(a) == lift(b) for a, b in zip(have, want)])))
+    return z3.simplify(z3.Or(*bad)) if bad else False
+
+
+def _val_ensures(want_tensor):
+    def ensures(s):
+        if s.mode == "apply":
+            return []  # the call-site result is constructed as exactly the array described below
+        g = s.g
+        r = s.result
+        have = (len(g.arrs),) + tuple(g.dims) if g.pair else tuple(g.dims)
+        ok = isinstance(r, SymArr) and not r.pylist and r.ndim == len(have)
+        idx = [I(f"i{k}") for k in range(len(have))]
+        inr = AND(*[AND(i >= 0, i < lift(d)) for i, d in zip(idx, have)])
+        if ok:
+            got = V._num(lift(r.fn(*idx)))
+            if g.pair:
+                src = z3.If(idx[0] == 0, V._num(lift(g.fns[0](*idx[1:]))), V._num(lift(g.fns[1](*idx[1:]))))
+            else:
+                src = V._num(lift(g.fns[0](*idx)))
+            if z3.is_int(got) != z3.is_int(src):
+                got, src = lm._to_real(got), lm._to_real(src)
+        return [
+            ("returns-a-torch-tensor" if want_tensor else "returns-a-numpy-array", ok and getattr(r, "as_type", None) is (torch.Tensor if want_tensor else np.ndarray)),
+            ("shape-preserved (a pair of arrays is stacked along a new leading axis)", ok and AND(*[lift(a) == lift(b) for a, b in zip(r.shape, have)])),
+            ("values-preserved (dtype cast only; A1: the cast to a float dtype is the identity on values)", ok and forall(idx, implies(inr, got == src))),
+            ("frame:the-caller's-array-is-not-written", all(a.writes == 0 for a in g.arrs)),
+        ]
+    return ensures
+
+
+def _is_float_dtype(dt):
+    if dt is None:
+        return True
+    try:
+        from quantem.core.utils.validators import canonical_dtype_str
+        return canonical_dtype_str(dt).startswith("float")
+    except Exception:
+        return False
+
+
+def _val_requires(s):
+    if s.mode != "apply":
+        return []
+    v = s.value
+    arrs = list(v) if isinstance(v, (tuple, list)) else [v]
+    return [("array (or a sequence of equal-shape arrays); no expand_dims; requested dtype is a float dtype or the values are integers already",
+             all(isinstance(a, SymArr) and not a.pylist for a in arrs) and not s.get("expand_dims", False)
+             and all(V.dims_equal(x, y) for a in arrs[1:] for x, y in zip(a.shape, arrs[0].shape)) and all(a.ndim == arrs[0].ndim for a in arrs)
+             and (_is_float_dtype(s.get("dtype")) or all(a.kind == "int" for a in arrs)))]
+
+
+C_VALIDATE_TENSOR.setup, C_VALIDATE_TENSOR.ensures, C_VALIDATE_TENSOR.raises = _val_setup(True), _val_ensures(True), {ValueError: _val_raises}
+C_VALIDATE_ARRAY.setup, C_VALIDATE_ARRAY.ensures, C_VALIDATE_ARRAY.raises = _val_setup(False), _val_ensures(False), {ValueError: _val_raises}
+C_VALIDATE_TENSOR.requires = C_VALIDATE_ARRAY.requires = _val_requires
+for _c in (C_VALIDATE_TENSOR, C_VALIDATE_ARRAY):
+    _c.inline = {f"{VAL}:validate_array_or_tensor", f"{VAL}:validate_arraylike", f"{VAL}:canonical_dtype_str", f"{AF}:as_type"}
+VALIDATE_TENSOR_CONTRACT, VALIDATE_ARRAY_CONTRACT = C_VALIDATE_TENSOR, C_VALIDATE_ARRAY
 
 # ------------------------------------------------------------------------------------------------
 # CenterOfMassOriginModel
@@ -578,25 +693,31 @@ C_CALC = Contract(
 
 
 def gc_setup(ctx):
-    B, H, W = ctx.fresh("B", "int"), ctx.fresh("H", "int"), ctx.fresh("W", "int")
-    for d in (B, H, W):
+    """every rank the function accepts: a single pattern (H,W), a stack (B,H,W), a 4-D dataset (A,B,H,W); numpy or torch"""
+    H, W = ctx.fresh("H", "int"), ctx.fresh("W", "int")
+    rank = 3 if ctx.branch(ctx.fresh("input_is_a_stack_BHW", "bool").t) else 2 if ctx.branch(ctx.fresh("input_is_one_pattern_HW", "bool").t) else 4
+    lead = tuple(ctx.fresh(n, "int") for n in (("A", "B")[2 - (rank - 2):] if rank > 2 else ()))
+    for d in lead + (H, W):
         ctx.assume(d.t >= 1)
-    ar = ctx.fresh_arr("ar", (B, H, W), "real")
+    ar = ctx.fresh_arr("ar", lead + (H, W), "real")
     is_torch = ctx.branch(ctx.fresh("input_is_torch", "bool").t)
     ar.as_type = torch.Tensor if is_torch else np.ndarray
-    return NS(ar=ar, corner_centered=False, g=NS(fn=ar.fn, B=B, H=H, W=W), case="torch" if is_torch else "numpy")
+    return NS(ar=ar, corner_centered=False, g=NS(fn=ar.fn, lead=lead, H=H, W=W), case=("torch" if is_torch else "numpy") + f",rank{rank}")
 
 
 def gc_ensures(s):
     g = s.g
     res = s.result
-    b = I("b")
-    sr, sc = com_spec(lambda i, j: g.fn(b, i, j), g.H, g.W)
-    inr = AND(b >= 0, b < lift(g.B))
+    lead = g.lead  # clause names keep the (B,H,W) wording of the baseline: `b` stands for the tuple of leading indices, B for the leading axes
+    idx = [I(f"b{k}") for k in range(len(lead))]
+    sr, sc = com_spec(lambda i, j: g.fn(*idx, i, j), g.H, g.W)
+    inr = AND(*[AND(b >= 0, b < lift(d)) for b, d in zip(idx, lead)]) if lead else z3.BoolVal(True)
+    ok = isinstance(res, SymArr) and res.ndim == len(lead) + 1
+    q = (lambda t: forall(idx, implies(inr, t))) if lead else (lambda t: t)
     return [
-        ("shape=(B,2)", isinstance(res, SymArr) and res.ndim == 2 and AND(lift(res.shape[0]) == lift(g.B), lift(res.shape[1]) == 2)),
-        ("com[b,0]=sum(I*row)/sum(I)", forall(b, implies(inr, lift(res.fn(b, z3.IntVal(0))) == sr))),
-        ("com[b,1]=sum(I*col)/sum(I)", forall(b, implies(inr, lift(res.fn(b, z3.IntVal(1))) == sc))),
+        ("shape=(B,2)", ok and AND(*[lift(a) == lift(b) for a, b in zip(res.shape, lead + (2,))])),
+        ("com[b,0]=sum(I*row)/sum(I)", ok and q(lift(res.fn(*idx, z3.IntVal(0))) == sr)),
+        ("com[b,1]=sum(I*col)/sum(I)", ok and q(lift(res.fn(*idx, z3.IntVal(1))) == sc)),
         ("frame:input-not-written", s.ar.writes == 0),
     ]
 
@@ -868,36 +989,145 @@ C_SIC_LOOP = sic_contract(False)
 # ------------------------------------------------------------------------------------------------
 
 
+def fb_position_spec(g):
+    """p -> (X(p), Y(p)): the scan position the plane fit must pair with pattern p.  Explicit positions: row p of the caller's
+    probe_positions; inferred positions: the row-major scan layout every other method of the model uses (calculate_origin merges
+    (Rx, Ry) into num_dps, estimate_detector_rotation / forward split it again): pattern p sits at (p div Ry, p mod Ry)."""
+    if g.pp is not None:
+        ppf = g.ppfn
+        return lambda p: (V._num(lift(ppf(p, z3.IntVal(0)))), V._num(lift(ppf(p, z3.IntVal(1)))))
+    if len(g.lead) == 2:
+        ry = lift(g.lead[1])
+        return lambda p: (z3.ToReal(p / ry), z3.ToReal(p % ry))
+    return None
+
+
 def fb_setup(ctx):
     me, g = com_model(ctx)
     N = g.N
     kind = "none"
-    if ctx.branch(ctx.fresh("origin_measured_is_set", "bool").t):
-        if ctx.branch(ctx.fresh("measured_origins_are_constant", "bool").t):
-            v0, v1 = ctx.fresh("v_row", "real"), ctx.fresh("v_col", "real")
-            om = SymArr((N, 2), lambda p, c: V.ite(c == 0, v0, v1), "real")
-            g.const = (v0, v1)
-            kind = "const"
-        else:
-            om = ctx.fresh_arr("origin_measured", (N, 2), "real")
-            g.const = None
-            kind = "any"
-        om.as_type = torch.Tensor
-        me.fields["_origin_measured"] = om
-        g.om, g.omfn = om, om.fn
-    else:
-        g.om = None
+    fm = "constant" if ctx.branch(ctx.fresh("fit_method_is_constant", "bool").t) else "plane" if ctx.branch(ctx.fresh("fit_method_is_plane", "bool").t) else "bogus"
     pp = None
     if ctx.branch(ctx.fresh("probe_positions_given", "bool").t):
         P = ctx.fresh("P", "int")
         ctx.assume(P.t >= 1)
         pp = ctx.fresh_arr("probe_positions", (P, 2), "real")
         pp.as_type = torch.Tensor
-    g.pp = pp
-    fm = "constant" if ctx.branch(ctx.fresh("fit_method_is_constant", "bool").t) else "bogus"
+    g.pp, g.ppfn = pp, (pp.fn if pp is not None else None)
+    g.const = g.plane = g.noncollinear = None
+    g.pos_spec = fb_position_spec(g)
+    if ctx.branch(ctx.fresh("origin_measured_is_set", "bool").t):
+        special = ctx.branch(ctx.fresh("measured_origins_lie_exactly_on_a_surface_of_the_fitted_family", "bool").t)
+        if special and fm != "plane":
+            v0, v1 = ctx.fresh("v_row", "real"), ctx.fresh("v_col", "real")
+            om = SymArr((N, 2), lambda p, c: V.ite(c == 0, v0, v1), "real")
+            g.const = (v0, v1)
+            kind = "const"
+        elif special and g.pos_spec is not None:
+            # EXACT planes over the scan positions: origin[p, k] = alpha_k * X(p) + beta_k * Y(p) + gamma_k, arbitrary real coefficients;
+            # the positions are not collinear (otherwise no plane is determined): three witnesses p1, p2, p3
+            co = [tuple(ctx.fresh(f"{n}_{k}", "real") for n in ("alpha", "beta", "gamma")) for k in ("row", "col")]
+            spec = g.pos_spec
+
+            def plane(p, k):
+                X, Y = spec(lift(p))
+                al, be, ga = co[k]
+                return Sym(al.t * X + be.t * Y + ga.t)
+
+            om = SymArr((N, 2), lambda p, c: V.ite(lift(c) == 0, plane(p, 0), plane(p, 1)), "real")
+            g.plane = co
+            if pp is None:
+                ctx.assume(z3.And(lift(g.lead[0]) >= 2, lift(g.lead[1]) >= 2))
+                g.noncollinear = (z3.IntVal(0), z3.IntVal(1), lift(g.lead[1]))  # positions (0,0), (0,1), (1,0)
+            else:
+                ws = [ctx.fresh(f"p{i}_noncollinear", "int") for i in (1, 2, 3)]
+                ctx.assume(z3.And(*[z3.And(w.t >= 0, w.t < lift(N)) for w in ws]))
+                g.noncollinear = tuple(w.t for w in ws)
+                ctx.assume(fb_det(spec, g.noncollinear) != 0)
+            kind = "plane"
+        else:
+            om = ctx.fresh_arr("origin_measured", (N, 2), "real")
+            kind = "any"
+        om.as_type = torch.Tensor
+        me.fields["_origin_measured"] = om
+        g.om, g.omfn = om, om.fn
+    else:
+        g.om = None
     add_stale_state(ctx, me, g, ["_origin_fitted", "_shifted_tensor", "_detector_transpose", "_detector_rotation_deg"])
     g.fields0 = dict(me.fields)
+    g.fm = fm
     return NS(self=me, probe_positions=pp, fit_method=fm, g=g, case=f"{g.case},measured:{kind},{'positions' if pp is not None else 'no-positions'},{fm}")
+
+
+def fb_det(spec, ws):
+    (x1, y1), (x2, y2), (x3, y3) = (spec(w) for w in ws)
+    return (x2 - x1) * (y3 - y1) - (x3 - x1) * (y2 - y1)
+
+
+def _is_plane_fit_helper(clo):
+    import ast
+
+    return any(isinstance(n, ast.Attribute) and n.attr == "eigh" for n in ast.walk(clo.node))
+
+
+def m_plane_fit_helper(interp, clo, args, kwargs):
+    """The nested PCA plane fit of fit_origin_background (`fit_linear_plane(points)`, recognised by its use of torch.linalg.eigh),
+    used through its ASSUMED contract (see ASSUMPTIONS): for points (x_p, y_p, z_p) with non-collinear (x_p, y_p) and
+    z_p = alpha*x_p + beta*y_p + gamma exactly, the returned (a, b, c, d) satisfy c != 0, a = -alpha*c, b = -beta*c, d = -gamma*c;
+    for any other points the four numbers are unspecified.  What IS verified here (named obligations at the call): the points
+    handed to the fit are (scan position of pattern p, measured origin of pattern p) for every p."""
+    if not _is_plane_fit_helper(clo):
+        return NotImplemented
+    ctx = interp.ctx
+    g = ctx.ghost.get("c18")
+    if len(args) != 1 or kwargs or not isinstance(args[0], SymArr) or args[0].ndim != 2:
+        raise V.OutOfSubset("plane-fit helper called with something else than one (n, 3) array")
+    pts = args[0]
+    calls = ctx.ghost.setdefault("c18_plane_fit_calls", [])
+    spec = getattr(g, "pos_spec", None)
+    if g is None or spec is None or getattr(g, "omfn", None) is None:
+        calls.append(None)
+        return tuple(ctx.fresh(n, "real") for n in ("plane_a", "plane_b", "plane_c", "plane_d"))
+    N = lift(g.N)
+    p = I("p")
+    inr = AND(p >= 0, p < N)
+    z = lambda j: z3.IntVal(j)
+    pf = pts.fn
+    num = lambda t: V._num(lift(t))
+    # which measured coordinate is being fitted: decided from the third column at one arbitrary pattern (order-independent)
+    pstar = ctx.fresh("p_fit", "int")
+    ctx.assume(z3.And(pstar.t >= 0, pstar.t < N))
+    k = None
+    for cand in (0, 1):
+        if cand not in [c for c in calls if c is not None] and lm.entails(num(pf(pstar.t, z(2))) == num(g.omfn(pstar.t, z(cand)))):
+            k = cand
+            break
+    if k is None:
+        k = [c for c in (0, 1) if c not in calls][0] if len([c for c in calls if c is not None]) < 2 else 0
+    calls.append(k)
+    cname = ("row", "col")[k]
+    X, Y = spec(p)
+    where = "the caller's probe_positions[p]" if g.pp is not None else "(p div Ry, p mod Ry) of the row-major (Rx, Ry) scan"
+    ctx.prove(f"plane-fit[{cname}]:receives-one-point-per-pattern:shape=(num_dps,3)", AND(lift(pts.shape[0]) == N, lift(pts.shape[1]) == 3), kind="pre")
+    ctx.prove(f"plane-fit[{cname}]:the-position-paired-with-pattern-p-is-its-scan-position: {where}",
+              forall(p, implies(inr, AND(num(pf(p, z(0))) == X, num(pf(p, z(1))) == Y))), kind="pre")
+    ctx.prove(f"plane-fit[{cname}]:the-value-paired-with-pattern-p-is-origin_measured[p,{k}]",
+              forall(p, implies(inr, num(pf(p, z(2))) == num(g.omfn(p, z(k))))), kind="pre")
+    c = ctx.fresh(f"plane_c_{cname}", "real")
+    Xs, Ys = spec(pstar.t)
+    established = lm.entails(AND(num(pf(pstar.t, z(0))) == Xs, num(pf(pstar.t, z(1))) == Ys, num(pf(pstar.t, z(2))) == num(g.omfn(pstar.t, z(k)))))
+    if g.plane is not None and not established:
+        # the hypothesis of the assumed contract is not established at an arbitrary pattern (the obligations above fail): the contract
+        # gives nothing, and the exact-plane postcondition cannot be concluded (recorded; it is then reported without a solver search)
+        ctx.ghost["c18_plane_fit_hypothesis_missing"] = True
+    if g.plane is None or not established:
+        return (ctx.fresh(f"plane_a_{cname}", "real"), ctx.fresh(f"plane_b_{cname}", "real"), c, ctx.fresh(f"plane_d_{cname}", "real"))
+    # hypothesis of the assumed contract: the positions RECEIVED are not collinear (three witnesses)
+    got = lambda w: (num(pf(w, z(0))), num(pf(w, z(1))))
+    ctx.prove(f"plane-fit[{cname}]:the-positions-received-are-not-collinear", fb_det(got, g.noncollinear) != 0, kind="pre")
+    al, be, ga = g.plane[k]
+    ctx.assume(c.t != 0)
+    return (Sym(-al.t * c.t), Sym(-be.t * c.t), c, Sym(-ga.t * c.t))
 
 
 def _fb_g(s):
@@ -905,6 +1135,7 @@ def _fb_g(s):
     if g is None:  # call site
         g = model_view(s.self)
         g.pp = s.probe_positions if isinstance(s.probe_positions, SymArr) else None
+        g.const = g.plane = None
         if s.probe_positions is not None and g.pp is None:
             raise V.OutOfSubset("fit_origin_background called with concrete probe positions")
     return g
@@ -952,14 +1183,22 @@ def fb_ensures(s):
     inr = AND(p >= 0, p < N, c >= 0, c < 2)
     om = SymArr((g.N, 2), g.omfn, "real")
     mean = lm.reduce_mean(om, 0)
-    out = [
-        ("origin_fitted-shape=(num_dps,2)", isinstance(of, SymArr) and of.ndim == 2 and AND(lift(of.shape[0]) == N, lift(of.shape[1]) == 2)),
-        ("constant-fit:every-row=mean-of-measured-origins", forall([p, c], implies(inr, lift(of.fn(p, c)) == lift(mean.fn(c))))),
+    out = [("origin_fitted-shape=(num_dps,2)", isinstance(of, SymArr) and of.ndim == 2 and AND(lift(of.shape[0]) == N, lift(of.shape[1]) == 2))]
+    if g.fm == "constant":
+        out.append(("constant-fit:every-row=mean-of-measured-origins", forall([p, c], implies(inr, lift(of.fn(p, c)) == lift(mean.fn(c))))))
+    else:
+        calls = s.ctx.ghost.get("c18_plane_fit_calls", [])
+        out.append(("plane-fit:one-fit-per-origin-coordinate (row and column), each through the plane-fit helper", sorted(calls, key=str) == [0, 1]))
+        if g.plane is not None:
+            out.append(("plane-fit:origins-lying-exactly-on-planes-over-the-scan-positions-are-returned-exactly (given the assumed eigh plane-fit contract)",
+                        False if s.ctx.ghost.get("c18_plane_fit_hypothesis_missing") else
+                        forall([p, c], implies(inr, V._num(lift(of.fn(p, c))) == V._num(lift(g.omfn(p, c)))))))
+    out += [
         ("returns-self", s.result is s.self),
         ("frame:only-_origin_fitted-changed", set(f) == set(g.fields0) and all(f[k] is g.fields0[k] for k in g.fields0 if k != "_origin_fitted")),
         ("frame:measured-origins/tensor/positions-not-written", g.om.writes == 0 and g.T.writes == 0 and (g.pp is None or g.pp.writes == 0)),
     ] + stored_state_frame(s.self, g, {"_origin_fitted"})
-    if g.const is not None:
+    if g.const is not None and g.fm == "constant":
         v0, v1 = g.const
         out.append(("constant-measured-origins=>fit-returns-that-constant",
                     forall(p, implies(AND(p >= 0, p < N), AND(lift(of.fn(p, z3.IntVal(0))) == lift(v0), lift(of.fn(p, z3.IntVal(1))) == lift(v1))))))
@@ -1298,7 +1537,7 @@ def fw_ensures(s):
 
 C_FORWARD = Contract(f"{OM}:CenterOfMassOriginModel.forward", setup=fw_setup, requires=fw_requires, ensures=fw_ensures)
 
-CONTRACTS = [C_SB_INIT, C_SB_ITER, C_SET_MEASURED, C_SET_FITTED, C_CALC, C_FITBG, C_SHIFT, C_SHIFT_ANY, C_EDR_HELPER, C_EDR, C_FORWARD, C_GETCOM, C_FITORIGIN, C_SIC_VEC, C_SIC_LOOP]
+CONTRACTS = [C_VALIDATE_TENSOR, C_VALIDATE_ARRAY, C_SB_INIT, C_SB_ITER, C_SET_MEASURED, C_SET_FITTED, C_CALC, C_FITBG, C_SHIFT, C_SHIFT_ANY, C_EDR_HELPER, C_EDR, C_FORWARD, C_GETCOM, C_FITORIGIN, C_SIC_VEC, C_SIC_LOOP]
 
 # ------------------------------------------------------------------------------------------------
 # property-level lemmas (from the contract statements alone)
@@ -2023,23 +2262,115 @@ def fam_batcher():
 
 
 def rt_setter(inp):
-    arr = _data((2, 3, 2, 2), 0).astype(np.float32)
+    scan = tuple(inp.get("scan", (2, 3)))
+    n = scan[0] * scan[1]
+    arr = _data(scan + (2, 2), 0).astype(np.float32)
     m = _origin_model(arr)
     v = torch.tensor(np.arange(2 * inp["rows"], dtype=np.float32).reshape((inp["rows"], 2))) if inp["rows"] else torch.tensor([1.5, 2.5])
-    exp_ok = inp["rows"] in (0, 1, 6)
+    exp_ok = inp["rows"] in (0, 1, n)
     try:
         setattr(m, inp["field"], v)
     except RuntimeError as e:
         return _res([] if not exp_ok else [f"raised {e}"], "RuntimeError iff rows not in (1, num_dps)")
     got = getattr(m, inp["field"]).numpy()
-    want = np.broadcast_to(v.numpy().reshape((-1, 2)), (6, 2))
-    return _res([] if exp_ok and np.array_equal(got, want) else [f"got {got.tolist()}"], "value.view(-1,2) broadcast to (num_dps, 2)")
+    want = np.broadcast_to(v.numpy().reshape((-1, 2)), (n, 2))
+    return _res([] if exp_ok and np.array_equal(got, want) else [f"assigned {v.numpy().tolist()} to a model of {n} patterns, stored {got.tolist()}"],
+                "the stored origin is the assigned array: entry (p, c) = component c of pattern p (value.view(-1,2) broadcast to (num_dps, 2))")
 
 
 def fam_setter():
     for field in ("origin_measured", "origin_fitted"):
         for rows in (0, 1, 6, 3):
             yield dict(field=field, rows=rows)
+        for scan in ((1, 2), (2, 1), (2, 2), (2, 5), (5, 2)):  # exactly two patterns / a scan axis of length 2
+            yield dict(field=field, rows=scan[0] * scan[1], scan=list(scan))
+            yield dict(field=field, rows=2, scan=list(scan))
+
+
+def conc_setter(field):
+    def conc(ev):
+        n = _clip(ev("num_dps"), 1, 6, 2)
+        scan = [1, n] if n not in (4, 6) else [2, n // 2]
+        return dict(field=field, rows=0 if ev("value_is_one_pair", False) else _clip(ev("rows"), 1, 6, n), scan=scan)
+    return conc
+
+
+def rt_validator(which):
+    """The validators' contract statement evaluated on the REAL function."""
+    def rt(inp):
+        from quantem.core.utils import validators as val
+
+        f = val.validate_tensor if which == "tensor" else val.validate_array
+        rng = np.random.default_rng(7)
+        shape = tuple(inp["shape"])
+        mk = lambda: (rng.integers(-5, 6, size=shape) if inp["kind"] == "int" else rng.uniform(-3, 3, size=shape).astype(np.float64))
+        srcs = [mk(), mk()] if inp.get("pair") else [mk()]
+        conv = (lambda a: torch.tensor(a)) if inp["lib"] == "torch" else (lambda a: a.copy())
+        given = [conv(a) for a in srcs]
+        value = tuple(given) if inp.get("pair") else given[0]
+        exp = np.stack(srcs) if inp.get("pair") else srcs[0]
+        nd, want = inp.get("ndim"), inp.get("want_shape")
+        must_raise = (nd is not None and nd != exp.ndim) or (want is not None and tuple(want) != exp.shape)
+        dt = torch.float if which == "tensor" else np.float32
+        what = "value- and shape-preserving cast; ValueError iff the requested ndim / shape does not match; a pair of arrays is stacked; input unwritten"
+        try:
+            with __import__("warnings").catch_warnings():
+                __import__("warnings").simplefilter("ignore")
+                got = f(value, "value", dtype=dt, ndim=nd, shape=None if want is None else tuple(want))
+        except ValueError as e:
+            return _res([] if must_raise else [f"ValueError on a matching request: {e}"], what)
+        except Exception as e:
+            return _res([f"raised {type(e).__name__}: {str(e)[:120]}"], what)
+        problems = []
+        if must_raise:
+            problems.append(f"no ValueError although ndim={nd} / shape={want} was requested for an array of shape {exp.shape}")
+        want_t = torch.Tensor if which == "tensor" else np.ndarray
+        if not isinstance(got, want_t):
+            problems.append(f"returns {type(got).__name__}, not {want_t.__name__}")
+        g = np.asarray(got.detach().cpu().numpy() if isinstance(got, torch.Tensor) else got, dtype=np.float64)
+        if g.shape != exp.shape:
+            problems.append(f"result shape {g.shape} != {exp.shape}")
+        elif g.size and not np.abs(g - exp).max() <= 1e-5:
+            problems.append(f"values changed by up to {np.abs(g - exp).max():.3g}")
+        for a, b in zip(given, srcs):
+            if not np.array_equal(np.asarray(a), b):
+                problems.append("the caller's array was written")
+        return _res(problems, what)
+    rt.__name__ = f"rt_validate_{which}"
+    return rt
+
+
+def fam_validator(which):
+    def fam():
+        for lib in ("numpy", "torch"):
+            for kind in ("real", "int"):
+                for shape in [(3,), (2, 3), (2, 1, 3, 2)]:
+                    r = len(shape)
+                    for nd in (None, r, r + 1, r - 1):
+                        for want in (None, list(shape), list(shape[:-1]) + [shape[-1] + 1], list(shape) + [1]):
+                            if nd is not None and want is not None and (nd != r or want != list(shape)):
+                                continue
+                            yield dict(lib=lib, kind=kind, shape=list(shape), ndim=nd, want_shape=want, pair=False)
+        if which == "array":
+            for shape in [(3,), (2, 3)]:
+                r = len(shape) + 1
+                for nd, want in ((None, None), (r, None), (r - 1, None), (None, [2] + list(shape)), (None, list(shape)), (None, [2] + list(shape[:-1]) + [shape[-1] + 1])):
+                    yield dict(lib="numpy", kind="real", shape=list(shape), ndim=nd, want_shape=want, pair=True)
+    return fam
+
+
+def conc_validator(ev):
+    rank = 1 if ev("value_is_1d", False) else 2 if ev("value_is_2d", False) else 4
+    shape = [_clip(ev(f"d{i}"), 0, 3, 2) for i in range(rank)]
+    pair = bool(ev("value_is_a_pair_of_arrays", False))
+    out_rank = rank + (1 if pair else 0)
+    nd = None if ev("ndim_is_none", True) else out_rank if ev("ndim_request_matches", True) else out_rank + 1
+    want = None
+    if not ev("shape_is_none", True):
+        r2 = out_rank if ev("shape_request_has_the_same_rank", True) else out_rank + 1
+        want = [_clip(ev(f"want{i}"), 0, 4, 1) for i in range(r2)]
+    return dict(lib="torch" if ev("value_is_torch", False) else "numpy", kind="int" if ev("value_holds_integers", False) else "real",
+                shape=shape, ndim=nd, want_shape=want, pair=pair)
 
 
 def _clip(v, lo, hi, default):
@@ -2084,7 +2415,8 @@ def conc_sic(vectorized):
 
 def conc_getcom(ev):
     H, W = _clip(ev("H"), 2, 7, 3), _clip(ev("W"), 2, 7, 4)
-    return dict(shape=[_clip(ev("B"), 1, 6, 2), H, W + (H == W)], lib="torch" if ev("input_is_torch", False) else "numpy", seed=4)
+    lead = [] if ev("input_is_one_pattern_HW", False) else [_clip(ev("B"), 1, 6, 2)] if ev("input_is_a_stack_BHW", True) else [_clip(ev("A"), 1, 4, 3), _clip(ev("B"), 1, 4, 2)]
+    return dict(shape=lead + [H, W + (H == W)], lib="torch" if ev("input_is_torch", False) else "numpy", seed=4)
 
 
 C_CALC.concretize, C_SHIFT.concretize, C_GETCOM.concretize = conc_calc, conc_shift, conc_getcom
@@ -2099,14 +2431,17 @@ C_GETCOM.inline = {f"{AF}:sum", f"{AF}:match_device", f"{AF}:validate_arraylike"
 for _c in (C_SIC_VEC, C_SIC_LOOP):
     _c.inline = {q for q in INLINE if "PtychographyDataset" in q or ":Dataset." in q or q.endswith(":tqdmnd")}
 
+C_VALIDATE_TENSOR.concretize = C_VALIDATE_ARRAY.concretize = conc_validator
+C_SET_MEASURED.concretize, C_SET_FITTED.concretize = conc_setter("origin_measured"), conc_setter("origin_fitted")
 for _c, _rt, _fam in (
+    (C_VALIDATE_TENSOR, rt_validator("tensor"), fam_validator("tensor")), (C_VALIDATE_ARRAY, rt_validator("array"), fam_validator("array")),
     (C_SB_INIT, rt_batcher, fam_batcher), (C_SB_ITER, rt_batcher, fam_batcher),
     (C_SET_MEASURED, rt_setter, fam_setter), (C_SET_FITTED, rt_setter, fam_setter),
     (C_CALC, rt_calc, fam_calc), (C_FITBG, rt_fit_background, fam_fit_background), (C_SHIFT, rt_shift, fam_shift), (C_SHIFT_ANY, rt_shift, fam_shift),
     (C_FORWARD, lambda inp: rt_forward_positions(inp) if "positions" in inp else rt_workflow(inp),
      lambda tier="quick", seed=0: (yield from (*fam_forward_positions(tier, seed), *fam_workflow_estimate(tier, seed)))),
     (C_EDR, rt_workflow, fam_workflow_estimate), (C_EDR_HELPER, rt_workflow, fam_workflow_estimate),
-    (C_GETCOM, rt_getcom, fam_getcom), (C_FITORIGIN, rt_fit_origin, fam_fit_origin_constant),
+    (C_GETCOM, rt_getcom, lambda tier="quick", seed=0: (yield from (*fam_getcom(tier, seed), *fam_getcom_ranks(tier, seed)))), (C_FITORIGIN, rt_fit_origin, fam_fit_origin_constant),
     (C_SIC_VEC, rt_sic, fam_sic(True)), (C_SIC_LOOP, rt_sic, fam_sic(False)),
 ):
     _c.rt, _c.rt_family = _rt, _fam
@@ -2114,6 +2449,8 @@ for _c in (C_CALC, C_FITBG, C_SHIFT, C_SHIFT_ANY):
     _c.rt, _c.rt_family = with_histories(_c.rt, _c.rt_family)
 
 BOUNDED = [
+    Bounded.from_rt("validate_tensor on the real function (replay oracle of its verified contract)", rt_validator("tensor"), fam_validator("tensor"), "numpy/torch x real/int x 3 shapes x ndim / shape requests"),
+    Bounded.from_rt("validate_array on the real function (replay oracle of its verified contract)", rt_validator("array"), fam_validator("array"), "numpy/torch x real/int x 3 shapes x ndim / shape requests + pairs of arrays"),
     Bounded.from_rt("calculate_origin vs float64 oracle, every batch size", rt_calc, fam_calc, "5 dataset shapes (3-D and 4-D, non-square), batch sizes None,1,2,3,n-1,n,n+2"),
     Bounded.from_rt("_set_intensities_com vectorised path vs float64 oracle", rt_sic, fam_sic(True), "3 shapes x 4 masks x 4 fit functions", klass=_klass_res),
     Bounded.from_rt("_set_intensities_com looped path vs float64 oracle", rt_sic, fam_sic(False), "3 shapes x 4 masks x 4 fit functions", klass=_klass_res),
@@ -2134,7 +2471,9 @@ BOUNDED = [
 
 TRUSTED = [
     "pyvc/lib/c18_models.py: numpy/torch index-function semantics of arange, meshgrid(ij/xy), zeros, ones_like, empty, empty_like, as_tensor, tensor, stack, "
-    "elementwise broadcasting, basic slicing / None / Ellipsis, isfinite (A1), sum / mean over axes",
+    "elementwise broadcasting, basic slicing / None / Ellipsis, isfinite (A1), sum / mean over axes; matrix @ vector = sum over the shared axis; "
+    "torch.concatenate = torch.cat; np.array / np.asarray of a tuple of equal-shape arrays = stack; np.array_equal on shape tuples; Tensor.type(dtype) = cast copy; "
+    "Tensor.numpy() = ndarray view; isinstance of a tagged array stand-in decided by its library tag; scalar[..., None] = shape (1,)",
     "row-major view / reshape that merges or splits leading axes (pattern p of a 4-D dataset is T[p div Ry, p mod Ry]); torch expand",
     "advanced-index gather a[idx] and scatter a[idx] = v / a[idx, c] = v for an injective index array (ghost inverse), with in-range obligations",
     "floored remainder a % b = a - b*floor(a/b) on reals; for integer-valued operands it is the integer mod (equivalent reformulation)",
@@ -2153,30 +2492,40 @@ TRUSTED = [
 ASSUMPTIONS = [
     "A1 floats are reals: float32/float64 rounding, inf/nan from empty patterns are ignored ('=' means equal over R; tolerances only in bounded checks)",
     "A2 fixed-width integers are mathematical",
-    "validators.validate_tensor / validate_array are used through ASSUMED contracts (value- and shape-preserving dtype cast; ValueError on a "
-    "requested-shape mismatch; a pair of arrays is stacked) - they are NOT verified in C18",
+    "validators.validate_tensor / validate_array: VERIFIED from source in this module (value- and shape-preserving cast to a float dtype, result "
+    "library tag, ValueError iff a requested ndim / shape does not match, a pair of arrays is stacked, caller's array unwritten) for 1-D / 2-D / 4-D "
+    "numpy or torch inputs holding reals or integers, dtype = a float dtype, expand_dims=False; call sites must stay inside that domain "
+    "(call-site precondition).  Exported as VALIDATE_TENSOR_CONTRACT / VALIDATE_ARRAY_CONTRACT",
     "generic-instance statements: the looped-path CoM post, the roll post and their loop invariants are proved at ONE arbitrary scan position / pattern / pixel "
     "(free symbols constrained only to be in range), which is the universally quantified statement",
     "shift_origin_to is specified for H, W >= 2 and for patterns whose (fitted origin - target coordinate) is integer-valued; other shifts are bilinear "
     "interpolation and outside the claim",
-    "PLANE FIT OF THE ORIGIN MODEL (fit_origin_background(fit_method='plane'), inner fit_linear_plane): the clause 'origins lying exactly on a plane "
-    "over the GIVEN (non-collinear) probe positions are returned exactly' is NOT proved - it rests on torch.cov + torch.linalg.eigh (normal = eigenvector "
-    "of the smallest eigenvalue) and on linearity of finite sums, neither of which the deductive part has (sums carry congruence only).  It is covered by "
-    "bounded stand-ins only: explicit raster / scaled-offset / rotated-sheared (correlated coordinates) / serpentine / irregular positions, both through "
-    "fit_origin_background and through forward.  What IS proved about positions: forward hands the caller's probe_positions (and every other argument) "
-    "to the step that consumes it (call-site preconditions)",
-    "plane / parabola fits (scipy curve_fit, torch.linalg.eigh PCA) are NOT proved: bounded stand-ins on exact surfaces only; at call sites "
-    "(forward) a plane fit is an unspecified (num_dps, 2) array",
+    "PLANE FIT OF THE ORIGIN MODEL (fit_origin_background(fit_method='plane')): the inner PCA helper (nested def using torch.cov + torch.linalg.eigh, "
+    "recognised by its eigh call) is used through an ASSUMED contract: for points (x_p, y_p, z_p) with non-collinear (x_p, y_p) and "
+    "z_p = alpha*x_p + beta*y_p + gamma exactly it returns (a, b, c, d) with c != 0, a = -alpha*c, b = -beta*c, d = -gamma*c; otherwise four unspecified "
+    "numbers (the eigen-decomposition and linearity of finite sums are outside the deductive part; bounded stand-ins on explicit raster / scaled-offset / "
+    "rotated-sheared / serpentine / irregular positions cover the helper itself).  Everything AROUND the helper is verified from source with symbolic "
+    "Rx, Ry: the points handed to it are (scan position of pattern p, origin_measured[p, k]) for every p - inferred positions are "
+    "(p div Ry, p mod Ry), the row-major layout calculate_origin / estimate_detector_rotation / forward use; explicit positions are the caller's rows - one fit "
+    "per origin coordinate, and the surface evaluated from the returned coefficients at the same positions is stored: origins lying exactly on planes "
+    "over the scan positions (non-collinear: Rx, Ry >= 2 when inferred; three witnesses when explicit) are returned exactly.  forward hands the "
+    "caller's probe_positions (and every other argument) to the step that consumes it (call-site preconditions)",
+    "plane / parabola fits of ptycho_utils.fit_origin (scipy curve_fit) are NOT proved: bounded stand-ins on exact surfaces only; at call sites "
+    "(forward) a plane fit of the origin model is an unspecified (num_dps, 2) array",
     "forward is verified with its four steps used THROUGH their contracts (calculate_origin, fit_origin_background, estimate_detector_rotation and the "
     "any-shift view of shift_origin_to, each verified from source in this module); 4-D datasets, inferred probe positions, default rotation angles",
     "history quantifier: every workflow method is verified from a pre-state in which the fields it does not recompute hold arbitrary other values "
     "(fork `re-run`), with one frame clause per stored field; sequences of calls follow by induction over these per-method contracts (plus the bounded "
     "workflow-history check on the real object)",
     "estimate_detector_rotation / forward with orientation estimate are specified for 4-D datasets only (the reshape to (Rx, Ry, 2) needs the scan axes)",
-    "get_com_2d is proved for a stack of patterns (B,H,W) only (corner_centered=False); other ranks are covered by a bounded check (and fail, see findings)",
+    "get_com_2d is proved for every rank it accepts up to 4: one pattern (H,W), a stack (B,H,W), a 4-D dataset (A,B,H,W), numpy and torch "
+    "(corner_centered=False); the bounded checks on these ranks remain as replay oracles",
+    "estimate_detector_rotation / forward beyond 4-D: NOT supported by the code (reshape of the (num_dps, 2) origins to tensor.shape[:2] + (2,) only "
+    "type-checks when the scan is exactly the two leading axes), so the 4-D precondition stays",
     "SimpleBatcher is specified only in the configuration the origin model uses (shuffle=False, no validation split); the general batcher is C09",
     "the detector mask of _set_intensities_com is any real array of detector shape; dtype conversion of the mask (np.asarray(..., float32)) is the identity under A1",
 ]
-EXPLANATION = ("VCs generated from the real source of calculate_origin / origin setters / fit_origin_background / shift_origin_to / _set_intensities_com "
-               "(vectorised and looped) / get_com_2d / fit_origin / SimpleBatcher.__init__/__iter__ over index-function arrays with first-order "
+EXPLANATION = ("VCs generated from the real source of calculate_origin / origin setters / fit_origin_background (constant fit, and the plane fit around its "
+               "eigh helper: scan positions, point pairing, evaluation of the fitted surface) / shift_origin_to / _set_intensities_com "
+               "(vectorised and looped) / get_com_2d (ranks 2-4) / fit_origin / validators.validate_tensor / validate_array / SimpleBatcher.__init__/__iter__ over index-function arrays with first-order "
                "Sigma-terms; every implementation's result is the term (Sum I*row / Sum I, Sum I*col / Sum I) of the property statement")
